@@ -119,7 +119,7 @@ def power_spectrum_lemma(ctx):
     ctx.oblige('C18::wfe.power_spectrum.noise_shape', z3.And(S.z(S.eq(noise.shape[0], n)), S.z(S.eq(noise.shape[1], m))))
     want_noise = L.RNG_REAL(S.z(seed), z3.IntVal(0), i, j, z3.RealVal(0), z3.RealVal(1))
     prove.with_hyp(ctx, inr, lambda: ctx.oblige('C18::wfe.power_spectrum.noise_is_first_normal_draw_of_the_seeded_generator',
-                                                S.eq(noise.at((i, j)), want_noise)))
+                                                S.eq(noise.at((i, j)), want_noise), 'structure'))
     # the filter multiplies the transform of the noise sample by sample (whatever H is, it is not random)
     G = calls[1]['output']
     scale = L.sqrt_scalar(ctx, S.mul(m, n))
@@ -138,7 +138,7 @@ def power_spectrum_lemma(ctx):
         return
     kappa = L.sqrt_scalar(ctx, v_q)
     prove.with_hyp(ctx, inr, lambda: ctx.oblige('C18::wfe.power_spectrum.mask_times_filtered_noise_times_one_factor',
-                                                S.eq(res.at((i, j)), S.mul(S.mul(masked(i, j), kappa), rms))))
+                                                S.eq(res.at((i, j)), S.mul(S.mul(masked(i, j), kappa), rms)), 'structure'))
     prove.with_hyp(ctx, inr + [S.z(S.eq(mask.at((i, j)), 0))],
                    lambda: ctx.oblige('C18::wfe.power_spectrum.zero_outside_the_mask', S.eq(res.at((i, j)), 0)))
     # exact RMS: with P = sum masked^2 > 0 and q = N / P:  sum res^2 = kappa^2 rms^2 P = rms^2 N
